@@ -88,7 +88,7 @@ def run_verus_unit(pid, unit, tier, evidence, problems):
         origin = prim.get('origin') or ()
         from_vspec = bool(origin) and str(origin[0]).startswith('vspec')
         msg = f['message']
-        internal = bool(re.search(r'invariant|assertion failed|assert', msg, re.I)) or (('precondition' in msg or 'requires' in msg) and from_vspec)
+        internal = bool(re.search(r'invariant|assertion failed|assert|condition of closure', msg, re.I)) or (('precondition' in msg or 'requires' in msg) and from_vspec)
         problems['failed'].append({'unit': unit, 'backend': 'verus', 'obligation': oblig, 'function': f['function'],
                                    'verifier_output': f['rendered'], 'origin': prim.get('origin'), 'internal': internal})
 
@@ -98,6 +98,8 @@ def run_kani_unit(pid, kspec, tier, evidence, problems):
     hs = list(kspec['harnesses'])
     if tier == 'thorough':
         hs += list(kspec.get('thorough_harnesses', []))
+    if not hs:
+        return      # this unit has harnesses in the thorough tier only
     rec = {'unit': unit, 'backend': 'kani', 'file': rel}
     evidence['units'].append(rec)
     info = kunit.run(unit, rel, hs, jobs=int(os.environ.get('VERIF_KANI_JOBS', '8')), timeout=kspec.get('timeout', 3000),
